@@ -542,3 +542,82 @@ func TestWorkScaling(t *testing.T) {
 	P.AddDistinct(n)
 	P.SetExtra("work_scaling_cases", n)
 }
+
+// TestOnePolicyManyInvocations: ONE delegation object (as built, held by the loader) whose policy slices an argument with
+// open and negative bounds - .name[-4:], .name[1:], .list[:-1], .list[-2:][0] - checked against invocations whose
+// argument has another length each time, in several orders, through the plain check and the identity hook. Every
+// verdict is the reference evaluator's verdict for THAT invocation; what the policy was evaluated on before is nothing
+// to it.
+func TestOnePolicyManyInvocations(t *testing.T) {
+	ctx := &h.Ctx{P: P, T: t}
+	ip := func(i int64) *int64 { return &i }
+	txt, one, two := val.Str(".txt"), val.Int(1), val.List(val.Int(1), val.Int(2))
+	name := sel.Seg{Kind: "field", Name: "name"}
+	list := sel.Seg{Kind: "field", Name: "list"}
+	stmts := []pol.Stmt{
+		{Op: "==", Sel: sel.Sel{name, {Kind: "slice", From: ip(-4)}}, Lit: &txt},
+		{Op: "like", Sel: sel.Sel{name, {Kind: "slice", From: ip(1)}}, Pat: "*.txt"},
+		{Op: "==", Sel: sel.Sel{list, {Kind: "slice", To: ip(-1)}}, Lit: &two},
+		{Op: "==", Sel: sel.Sel{list, {Kind: "slice", From: ip(-2)}, {Kind: "index", Idx: 0}}, Lit: &one},
+		{Op: "not", Sub: []pol.Stmt{{Op: "==", Sel: sel.Sel{name, {Kind: "slice", From: ip(-4)}}, Lit: &txt}}},
+	}
+	names := []string{"a.txt", "a.txt.exe", "x.txt", "txt", "report.final.txt", "", ".txt", "é.txt", "a.txt.exe.txt"}
+	lists := []val.V{val.List(val.Int(1), val.Int(2), val.Int(3)), val.List(val.Int(1), val.Int(2)), val.List(val.Int(9), val.Int(1), val.Int(2), val.Int(3)), val.List(), val.List(val.Int(1))}
+	n := 0
+	for si, st := range stmts {
+		for _, polIPLD := range []bool{false, true} {
+			var cs chain.Case
+			cs.Inv = chain.Inv{Iss: 0, Sub: 1, Aud: -1, NonceLen: 12, Cmd: "/foo"}
+			cs.Links = []chain.Link{{Iss: 1, Aud: 0, Sub: 1, Cmd: "/foo", Pol: pol.Policy{st}, PolIPLD: polIPLD}}
+			b, err := chain.Build(cs)
+			if err != nil {
+				t.Fatalf("INCONCLUSIVE cannot build the base chain: %v", err)
+			}
+			for order := 0; order < 3; order++ {
+				for k := 0; k < len(names)*len(lists); k++ {
+					i := k
+					if order == 1 {
+						i = len(names)*len(lists) - 1 - k
+					} else if order == 2 {
+						i = (k * 7) % (len(names) * len(lists))
+					}
+					argsKV := []val.KV{{K: "name", V: val.Str(names[i%len(names)])}, {K: "list", V: lists[i/len(names)%len(lists)]}}
+					inv := cs.Inv
+					inv.Args = argsKV
+					tk, err := chain.BuildInv(inv, b.Cids)
+					if err != nil {
+						continue
+					}
+					want := pol.Eval(st, val.V{K: "map", M: argsKV})
+					if want != pol.True && want != pol.False && want != pol.Unresolved {
+						continue
+					}
+					allowedWant := want == pol.True
+					if want == pol.Unresolved {
+						allowedWant = false // a required selector that fails: not satisfied
+						if st.Op == "not" {
+							continue
+						}
+					}
+					b2 := *b
+					b2.Inv = tk
+					for hook := 0; hook < 2; hook++ {
+						var d chain.Decision
+						if hook == 0 {
+							d = chain.Decide(&b2, nil)
+						} else {
+							d = chain.DecideIdentityHook(&b2)
+						}
+						n++
+						if d.Allowed != allowedWant {
+							ctx.Fail("C03/one-policy-many-invocations", "statement %d (IPLD-built: %v), the same delegation object checked against its %d-th invocation (order %d, hook %d), arguments %v: allowed=%v (%s), the reference says the statement is %v", si, polIPLD, k+1, order, hook, argsKV, d.Allowed, d.Err, want)
+							return
+						}
+					}
+				}
+			}
+		}
+	}
+	P.EvalN(n)
+	P.AddDistinct(len(stmts) * len(names) * len(lists))
+}
